@@ -319,6 +319,83 @@ def lockhold_case(item):
     return r
 
 
+def stalled_reader_case(item):
+    """A query prints more than its reader takes (redo-ood into a pipe that nobody reads for a while, as under a pager): other
+    commands must not have to wait for that reader."""
+    _, nleaf, seed = item
+    import fcntl
+    import subprocess
+    names = ['leaf-with-a-rather-long-name-%04d.leaf' % i for i in range(nleaf)]
+    files = {'default.leaf.do': 'redo-ifchange src\necho leaf > $3\n', 'src': 'v0\n',
+             'top.do': 'redo-ifchange %s\necho top > $3\n' % ' '.join(names)}
+    pj = scen.Project(files, 'c16r')
+    anoms = []
+    obs = dict(rounds=1, invocations=0, failed_invocations=0, stalled_reader_rounds=1)
+    p = None
+    try:
+        r, _ = pj.run(['redo', '-j8', 'top'], verif_log=False, timeout=180)
+        if r.rc != 0:
+            return dict(verdict='inconclusive', why='could not initialise the project', sample=dict(item=list(item)))
+        common.write_file(os.path.join(pj.top, 'src'), 'v1\n')
+        os.utime(os.path.join(pj.top, 'src'), ns=(int(time.time() * 1e9) + 5 * 10 ** 9,) * 2)
+        rd, wr = os.pipe()
+        try:
+            fcntl.fcntl(wr, 1031, 4096)          # F_SETPIPE_SZ: the smallest pipe the kernel gives
+        except OSError:
+            pass
+        p = subprocess.Popen(['redo-ood'], cwd=pj.top, env=pj.env(verif_log=False), stdin=subprocess.DEVNULL, stdout=wr, stderr=subprocess.PIPE, start_new_session=True)
+        os.close(wr)
+        # wait until the query sits in a write to the full pipe (or has ended: then the output was too small to stall it)
+        t0 = time.time()
+        blocked = False
+        while time.time() - t0 < 30 and p.poll() is None:
+            try:
+                st = open('/proc/%d/wchan' % p.pid).read()
+            except OSError:
+                st = ''
+            if 'pipe' in st:
+                blocked = True
+                break
+            time.sleep(0.02)
+        if not blocked:
+            out = os.read(rd, 1 << 20)
+            os.close(rd)
+            p.wait(timeout=30)
+            return dict(verdict='held', nontrivial=False, shape='nostall', sample=dict(kind='stalled-reader', stalled=False), obs=obs)
+        obs['queries_stalled_on_their_reader'] = 1
+        res = pj.run_many([dict(argv=['redo-targets']), dict(argv=['redo-sources']), dict(argv=['redo-ifchange', 'src'])], timeout=25)
+        obs['invocations'] = 3
+        still_stalled = p.poll() is None
+        for c, r in zip(('redo-targets', 'redo-sources', 'redo-ifchange'), res):
+            if r.status != 'exit' or r.rc != 0:
+                obs['failed_invocations'] += 1
+                anoms.append(dict(key='blocked-by-a-query-whose-reader-stalls:%s' % c,
+                                  what='%s did not finish (%s, rc %s) within 25 s while redo-ood sat in a write to a full pipe (still there: %s): %s'
+                                       % (c, r.status, r.rc, still_stalled, (r.err or '')[-200:].replace('\n', ' | '))))
+        # now the reader wakes up
+        chunks = []
+        while True:
+            b = os.read(rd, 65536)
+            if not b:
+                break
+            chunks.append(b)
+        os.close(rd)
+        p.wait(timeout=60)
+        if p.returncode != 0:
+            anoms.append(dict(key='spurious-failure:stalled-reader:redo-ood', what='redo-ood exits %s: %s' % (p.returncode, p.stderr.read().decode('utf-8', 'replace')[-200:])))
+        obs['bytes_the_query_printed'] = sum(len(c) for c in chunks)
+    finally:
+        if p is not None and p.poll() is None:
+            common.kill_session(p.pid)
+        pj.close()
+    r = dict(verdict='violated' if anoms else 'held', nontrivial=True, shape=common.shash(list(item)),
+             sample=dict(kind='stalled-reader', leaves=nleaf), obs=obs, sets=dict(commands=['redo-ood|stalled']))
+    if anoms:
+        r['violations'] = anoms[:3]
+        r['replay'] = dict(kind='c16', item=list(item))
+    return r
+
+
 def dispatch(item):
     if item[0] == 'same':
         return same_target_case(tuple(item))
@@ -326,6 +403,8 @@ def dispatch(item):
         return ood_missing_case(tuple(item))
     if item[0] == 'lockhold':
         return lockhold_case(tuple(item))
+    if item[0] == 'stalled':
+        return stalled_reader_case(tuple(item))
     return case(tuple(item))
 
 
@@ -334,7 +413,7 @@ RULE = ('rounds of n in {2,4,8,16} invocations released within a few millisecond
         'project and on a project without .redo (first-creation race); with delay hooks inside start-up (between the existence test and '
         'connect, between the schema read and the run-id insert). All scripts succeed by construction, so every invocation must exit 0; '
         'afterwards integrity_check = ok, every target of a successful invocation has its Files row, its declared Deps edges and its file. '
-        'Same-target rounds: 2-5 invocations (redo-ifchange / redo / redo -j3, plus queries) all ask for one chain top -> mid -> checksummed st -> src after a change below the checksummed target (checksum kept, changed, no change, or the checksummed target and a leaf removed by hand, with four more queries): they meet each other at the locks and on the out-of-band path; every one exits 0, afterwards the chain holds the new content, redo-ood works, no temporary output is left (what redo-ood lists is counted, not judged: run ids of concurrent commands can make a parent look older than a dependency built by a later-started run). Lock-holder rounds: another process (the harness, through SQLite) holds the write lock of the database for 3-4.5 s; five commands started meanwhile wait and exit 0. Query-only rounds: 4-8 redo-targets / redo-sources and 1-3 redo-ood released together on a built project whose generated leaves were removed by hand (redo-ood meets targets that have gone missing while others allocate run ids): every query exits 0. Every round is non-trivial; distinct = parameter tuple (incl. seed).')
+        'Same-target rounds: 2-5 invocations (redo-ifchange / redo / redo -j3, plus queries) all ask for one chain top -> mid -> checksummed st -> src after a change below the checksummed target (checksum kept, changed, no change, or the checksummed target and a leaf removed by hand, with four more queries): they meet each other at the locks and on the out-of-band path; every one exits 0, afterwards the chain holds the new content, redo-ood works, no temporary output is left (what redo-ood lists is counted, not judged: run ids of concurrent commands can make a parent look older than a dependency built by a later-started run). Stalled-reader rounds: redo-ood prints 300 long names into a 4 KiB pipe that nobody reads; while it sits in that write, redo-targets, redo-sources and a redo-ifchange must finish. Lock-holder rounds: another process (the harness, through SQLite) holds the write lock of the database for 3-4.5 s; five commands started meanwhile wait and exit 0. Query-only rounds: 4-8 redo-targets / redo-sources and 1-3 redo-ood released together on a built project whose generated leaves were removed by hand (redo-ood meets targets that have gone missing while others allocate run ids): every query exits 0. Every round is non-trivial; distinct = parameter tuple (incl. seed).')
 ASSUME = ['only targets known to redo are queried with redo-log', 'script-attributable failures are impossible by construction']
 
 
@@ -353,6 +432,8 @@ def main(tier):
         for ninv in (2, 3, 5):
             for change in ('new-checksum', 'same-checksum', 'none', 'removed'):
                 items.append(('same', ninv, change, rnd.choice([0, 2]), rnd.randrange(10 ** 6)))
+    for rep in range(1 if quick else 6):
+        items.append(('stalled', 300, rep))
     for rep in range(2 if quick else 12):
         items.append(('lockhold', rnd.choice([3.0, 4.5]), rep))
     for rep in range(10 if quick else 120):
